@@ -142,6 +142,10 @@ inductive Fault
   | fail
   | short (k : Nat)
   | eintr
+  /-- not a failure but an environment choice at close(2): the descriptor being closed is not the last one of
+  its open file description (it was dup'ed, or a child process inherited it), so the description — and any
+  flock on it — survives the close. -/
+  | shared
   deriving DecidableEq, Repr
 
 inductive Sys
@@ -297,7 +301,8 @@ def osStep (w : World) (c : Cid) (s : Sys) (f : Fault) : Option (World × Res) :
       match faultErr f with
       | some e => some (w, .err e)
       | none =>
-        some (closeFd w fd o.path, .ok)
+        -- flock(2) locks belong to the open file description: they go away with its LAST descriptor
+        if f = .shared then some (w, .ok) else some (closeFd w fd o.path, .ok)
   | .mlock m => if w.mus m then none else some ({ w with mus := upd w.mus m true }, .ok)
   | .munlock m => if w.mus m then some ({ w with mus := upd w.mus m false }, .ok) else none
 
@@ -442,15 +447,20 @@ def programShapeData : Bool :=
   Gen.Lockedfile.readShape && Gen.Lockedfile.writeShape && Gen.Lockedfile.tPrologue && Gen.Lockedfile.tBody &&
   Gen.Lockedfile.tTailFirst && Gen.Lockedfile.tRollback
 
+/-- closeFile: `filelock.Unlock(f)` and then `f.Close()` — if the source unlocks first (regenerated
+`unlockBeforeClose`); otherwise only the Close, with the lock still held. -/
+def finPc (fd : Fd) (ret : Ret) : Pc :=
+  if Gen.Lockedfile.unlockBeforeClose then .unlock fd ret else .close fd ret true
+
 /-- Where Transform goes when a body step failed: the deferred roll-back, if the source has it. -/
 def rollbackPc (fd : Fd) (old : Bytes) : Pc :=
-  if Gen.Lockedfile.tRollback then .tRb1 fd old else .unlock fd .err
+  if Gen.Lockedfile.tRollback then .tRb1 fd old else finPc fd .err
 
 /-- The pc reached when openFile has returned a locked file to the operation. -/
 def afterOpen (op : Op) (fd : Fd) : Pc :=
   match op with
   | .read _ => .readAll fd []
-  | .write _ content => if content.isEmpty then .unlock fd .ok else .copy fd content
+  | .write _ content => if content.isEmpty then finPc fd .ok else .copy fd content
   | .transform _ _ => .tRead fd []
   | .openFile _ _ => .done (.handle fd)
   | .mutexLock _ m => .mlock fd m
@@ -513,16 +523,16 @@ def advancePc (op : Op) (pc : Pc) (n : Nat) (r : Res) : Pc :=
     match r with
     | .ok => if Gen.Lockedfile.truncAfterLock then afterOpen op fd else .lock fd
     | _ => .truncStat fd
-  | .truncStat fd => .unlock fd .err
+  | .truncStat fd => finPc fd .err
   | .readAll fd acc =>
     match r with
     | .bytes b => .readAll fd (acc ++ b)
-    | .eof => .unlock fd (.bytes acc)
-    | _ => .unlock fd .err
+    | .eof => finPc fd (.bytes acc)
+    | _ => finPc fd .err
   | .copy fd rest =>
     match r with
-    | .n _ => if (rest.drop n).isEmpty then .unlock fd .ok else .copy fd (rest.drop n)
-    | _ => .unlock fd .err
+    | .n _ => if (rest.drop n).isEmpty then finPc fd .ok else .copy fd (rest.drop n)
+    | _ => finPc fd .err
   | .tRead fd acc =>
     match r with
     | .bytes b => .tRead fd (acc ++ b)
@@ -530,31 +540,31 @@ def advancePc (op : Op) (pc : Pc) (n : Nat) (r : Res) : Pc :=
       match op with
       | .transform _ t =>
         match t acc with
-        | none => .unlock fd .err
+        | none => finPc fd .err
         | some new =>
           if new.length > acc.length && Gen.Lockedfile.tTailFirst then .tTail fd acc new else .tBody fd acc new
-      | _ => .unlock fd .err
-    | _ => .unlock fd .err
+      | _ => finPc fd .err
+    | _ => finPc fd .err
   | .tTail fd old new =>
     match r with
     | .n _ => .tBody fd old new
     | _ => .tTailUndo fd old
-  | .tTailUndo fd _ => .unlock fd .err
+  | .tTailUndo fd _ => finPc fd .err
   | .tBody fd old new =>
     match r with
-    | .n _ => if new.length ≥ old.length then .unlock fd .ok else .tShrink fd old new
+    | .n _ => if new.length ≥ old.length then finPc fd .ok else .tShrink fd old new
     | _ => rollbackPc fd old
   | .tShrink fd old _ =>
     match r with
-    | .ok => .unlock fd .ok
+    | .ok => finPc fd .ok
     | _ => rollbackPc fd old
   | .tRb1 fd old =>
     match r with
     | .n _ => .tRb2 fd old
-    | _ => .unlock fd .err
-  | .tRb2 fd _ => .unlock fd .err
+    | _ => finPc fd .err
+  | .tRb2 fd _ => finPc fd .err
   | .mlock fd _ => .done (.handle fd)
-  | .munlock fd _ => .unlock fd .ok
+  | .munlock fd _ => finPc fd .ok
   | .unlock fd ret =>
     match r with
     | .ok => .close fd ret false
@@ -570,10 +580,10 @@ def advancePc (op : Op) (pc : Pc) (n : Nat) (r : Res) : Pc :=
 
 /-- Does this step release the operation's lock?  (`unlock` succeeded, or `close` succeeded while the
 lock was still held.) -/
-def releases (pc : Pc) (r : Res) : Bool :=
+def releases (pc : Pc) (r : Res) (f : Fault) : Bool :=
   match pc, r with
   | .unlock _ _, .ok => true
-  | .close _ _ true, .ok => true
+  | .close _ _ true, .ok => f != .shared
   | _, _ => false
 
 /-! ### clients and the transition system -/
@@ -599,7 +609,7 @@ structure Label where
   a : Act
 
 def startPc : Op → Pc
-  | .closeH h => .unlock h.fd .ok
+  | .closeH h => finPc h.fd .ok
   | .unlockM h =>
     match h.mu with
     | some m => .munlock h.fd m
@@ -636,6 +646,8 @@ def Fault.affects (f : Fault) (s : Sys) : Bool :=
   | .short _, .write _ _ => true
   | .short _, .pwrite _ _ _ => true
   | .short _, _ => false
+  | .shared, .close _ => true
+  | .shared, _ => false
   | _, _ => true
 
 /-- The frame after a system call `sc` (tagged `tag`, fault `f`, chunk `n`) took the world from `w` to `w'`
@@ -648,7 +660,7 @@ def nextFrame (w w' : World) (fr : Frame) (sc : Sys) (tag : Tag) (f : Fault) (n 
       | .lock _, .ok => w'.hist fr.op.path
       | _, _ => fr.h1)
     flt := if f.affects sc then (tag, f) :: fr.flt else fr.flt
-    committed := if releases fr.pc r && lockMode fr.op.flag == .ex
+    committed := if releases fr.pc r f && lockMode fr.op.flag == .ex
       then some (w.content fr.op.path) else fr.committed }
 
 /-- One transition; also reports the result of the system call (for trace comparison). -/
